@@ -1,195 +1,565 @@
 package main
 
 // G7 for the subscription and binding managers (C08, C09, C10): the critical
-// sections of spine/subscription_manager.go and spine/binding_manager.go that
-// the hand-written models Spine.Reg (one event per call, one event per
-// teardown pass) and Spine.Bind (`atomicAdd` = check and insertion in one
-// critical section) rest on, extracted with go/ast. A fact that cannot be
-// established is emitted as `false` with a note, never silently: the theorems
-// of Spine/Props/C08Gen.lean, C09Gen.lean, C10Gen.lean then no longer check.
+// sections of the SubscriptionManager and the BindingManager that the
+// hand-written models Spine.Reg (one event per call, one event per teardown
+// pass), Spine.Bind (`atomicAdd`) and Spine.BindSched (`commit` = scan and
+// append in one region) rest on. A fact that cannot be established is emitted as
+// `false` with a note, never silently: the theorems of Spine/Props/C08Gen.lean,
+// C09Gen.lean, C10Gen.lean then no longer check.
+//
+// The extraction is SEMANTIC (second version; the first one matched `c.mux.Lock()`
+// literally and raised a false alarm on a renamed receiver / mutex field and on a
+// duplicate check moved into a helper): the whole package directory is parsed
+// (moved files), the manager's mutex and entries fields are found by their TYPES,
+// the receiver by its declaration, and every operation is turned into a trace of
+// lock / unlock / read-entries / write-entries events with helpers of the package
+// and function literals inlined (4 levels), `defer Unlock` ending its region at
+// the end of the function that deferred it, an explicit `Unlock` where it stands,
+// a branch that ends in return / panic not leaking its lock state into the code
+// after it. Facts are stated over the regions of that trace.
 
 import (
 	"fmt"
 	"go/ast"
 	"go/parser"
 	"go/token"
+	"os"
 	"path/filepath"
+	"sort"
 	"strings"
 )
 
 func init() { register("managers", genManagers) }
 
-// mgrLockingMethods: the methods of the manager whose own body operates c.mux (calling one of them inside a
-// region of c.mux would deadlock, calling one before the region is a critical section of its own).
-func mgrLockingMethods(f *ast.File, recv string) map[string]bool {
-	out := map[string]bool{}
-	for _, d := range f.Decls {
-		fd, ok := d.(*ast.FuncDecl)
-		if !ok || fd.Recv == nil || fd.Body == nil || findFunc(f, recv, fd.Name.Name) != fd {
-			continue
-		}
-		ast.Inspect(fd.Body, func(n ast.Node) bool {
-			if c, ok := n.(*ast.CallExpr); ok && strings.HasPrefix(exprString(c.Fun), "c.mux.") {
-				out[fd.Name.Name] = true
-			}
-			return true
-		})
-	}
-	return out
+type mgrPkg struct {
+	funcs   map[string]*ast.FuncDecl // "Type.Method" and "func"
+	structs map[string]*ast.StructType
 }
 
-// mgrOneRegion: in fd, (1) the only operations on c.mux are one plain top-level `c.mux.Lock()` immediately followed by
-// `defer c.mux.Unlock()` — an exclusive region that runs to the end of the function, no RLock, no unlock in between;
-// (2) every mention of c.<entries> lies inside that region; (3) the region scans c.<entries> (range) and assigns to it
-// (append or filtered copy); (4) no method of the manager that locks c.mux itself is called — inside the region
-// (deadlock) or, when strict, anywhere (a check made through such a helper before the region is a critical section of
-// its own: the shape of the check/insert race).
-func mgrOneRegion(f *ast.File, recv, name, entries string, strict bool, note func(string, ...any)) bool {
-	fd := findFunc(f, recv, name)
+func mgrLoad(dir string) (*mgrPkg, error) {
+	fset := token.NewFileSet()
+	ents, err := os.ReadDir(dir)
+	if err != nil {
+		return nil, err
+	}
+	p := &mgrPkg{funcs: map[string]*ast.FuncDecl{}, structs: map[string]*ast.StructType{}}
+	for _, e := range ents {
+		n := e.Name()
+		if e.IsDir() || !strings.HasSuffix(n, ".go") || strings.HasSuffix(n, "_test.go") {
+			continue
+		}
+		f, err := parser.ParseFile(fset, filepath.Join(dir, n), nil, 0)
+		if err != nil {
+			return nil, err
+		}
+		// files excluded by a build tag other than verif (none today) would be parsed too: the duplicate-definition
+		// rule below keeps the first and notes nothing — the managers have no tagged variants
+		for _, d := range f.Decls {
+			switch x := d.(type) {
+			case *ast.FuncDecl:
+				key := x.Name.Name
+				if x.Recv != nil {
+					key = recvTypeName(x) + "." + key
+				}
+				if _, dup := p.funcs[key]; !dup {
+					p.funcs[key] = x
+				}
+			case *ast.GenDecl:
+				for _, s := range x.Specs {
+					if ts, ok := s.(*ast.TypeSpec); ok {
+						if st, ok := ts.Type.(*ast.StructType); ok {
+							p.structs[ts.Name.Name] = st
+						}
+					}
+				}
+			}
+		}
+	}
+	return p, nil
+}
+
+// the manager's mutex fields (type sync.Mutex / sync.RWMutex) and its entries field (a slice of *api.<kind>Entry)
+func (p *mgrPkg) fields(typ, entryType string) (mutexes map[string]bool, entries string) {
+	mutexes = map[string]bool{}
+	st := p.structs[typ]
+	if st == nil {
+		return
+	}
+	for _, f := range st.Fields.List {
+		t := exprString(f.Type)
+		for _, n := range f.Names {
+			if t == "sync.Mutex" || t == "sync.RWMutex" {
+				mutexes[n.Name] = true
+			}
+			if at, ok := f.Type.(*ast.ArrayType); ok && strings.HasSuffix(exprString(at.Elt), entryType) {
+				entries = n.Name
+			}
+			if at, ok := f.Type.(*ast.ArrayType); ok {
+				if se, ok := at.Elt.(*ast.StarExpr); ok && strings.HasSuffix(exprString(se.X), entryType) {
+					entries = n.Name
+				}
+			}
+		}
+	}
+	return
+}
+
+type mgrRegion struct {
+	mutex         string
+	exclusive     bool
+	reads, writes int
+}
+
+type mgrWalk struct {
+	p        *mgrPkg
+	typ      string
+	mutexes  map[string]bool
+	entries  string
+	stopAt   string // method not inlined but counted (delegation target), "" = none
+	regions  []*mgrRegion
+	cur      *mgrRegion
+	outside  int // entries accesses with no lock held
+	nested   int // lock taken while one is held
+	stray    int // unlock with no lock held
+	targets  int // calls of stopAt
+	mgrVars  []map[string]bool
+	problems []string
+}
+
+func (w *mgrWalk) isMgr(e ast.Expr) bool {
+	id, ok := e.(*ast.Ident)
+	if !ok {
+		return false
+	}
+	return len(w.mgrVars) > 0 && w.mgrVars[len(w.mgrVars)-1][id.Name]
+}
+
+// mutexOp: X.<mutex>.<Lock|Unlock|RLock|RUnlock>() on the manager
+func (w *mgrWalk) mutexOp(c *ast.CallExpr) (mutex, op string) {
+	s, ok := c.Fun.(*ast.SelectorExpr)
+	if !ok {
+		return
+	}
+	in, ok := s.X.(*ast.SelectorExpr)
+	if !ok || !w.isMgr(in.X) || !w.mutexes[in.Sel.Name] {
+		return
+	}
+	switch s.Sel.Name {
+	case "Lock", "Unlock", "RLock", "RUnlock", "TryLock":
+		return in.Sel.Name, s.Sel.Name
+	}
+	return
+}
+
+func (w *mgrWalk) lock(m string, excl bool) {
+	if w.cur != nil {
+		w.nested++
+		return
+	}
+	w.cur = &mgrRegion{mutex: m, exclusive: excl}
+	w.regions = append(w.regions, w.cur)
+}
+
+func (w *mgrWalk) unlock() {
+	if w.cur == nil {
+		w.stray++
+		return
+	}
+	w.cur = nil
+}
+
+func (w *mgrWalk) access(write bool) {
+	if w.cur == nil {
+		w.outside++
+		return
+	}
+	if write {
+		w.cur.writes++
+	} else {
+		w.cur.reads++
+	}
+}
+
+func mgrTerminates(b *ast.BlockStmt) bool {
+	if b == nil || len(b.List) == 0 {
+		return false
+	}
+	switch x := b.List[len(b.List)-1].(type) {
+	case *ast.ReturnStmt:
+		return true
+	case *ast.BranchStmt:
+		return x.Tok == token.CONTINUE || x.Tok == token.BREAK
+	case *ast.ExprStmt:
+		if c, ok := x.X.(*ast.CallExpr); ok {
+			return exprString(c.Fun) == "panic"
+		}
+	}
+	return false
+}
+
+func (w *mgrWalk) isEntries(e ast.Expr) bool {
+	s, ok := e.(*ast.SelectorExpr)
+	return ok && w.isMgr(s.X) && s.Sel.Name == w.entries
+}
+
+// walkFunc: the body of fd with its own manager variables (receiver, parameters of the manager's pointer type);
+// deferred unlocks run at its end
+func (w *mgrWalk) walkFunc(recvName string, params *ast.FieldList, body *ast.BlockStmt, depth int, inherit bool) {
+	vars := map[string]bool{}
+	if inherit && len(w.mgrVars) > 0 {
+		for k := range w.mgrVars[len(w.mgrVars)-1] {
+			vars[k] = true
+		}
+	}
+	if recvName != "" {
+		vars[recvName] = true
+	}
+	if params != nil {
+		for _, f := range params.List {
+			if strings.TrimPrefix(exprString(f.Type), "*") == w.typ {
+				for _, n := range f.Names {
+					vars[n.Name] = true
+				}
+			}
+		}
+	}
+	w.mgrVars = append(w.mgrVars, vars)
+	var defers []func()
+	w.walkBlock(body.List, depth, &defers)
+	for i := len(defers) - 1; i >= 0; i-- {
+		defers[i]()
+	}
+	w.mgrVars = w.mgrVars[:len(w.mgrVars)-1]
+}
+
+func (w *mgrWalk) walkBlock(list []ast.Stmt, depth int, defers *[]func()) {
+	for _, st := range list {
+		w.walkStmt(st, depth, defers)
+	}
+}
+
+func (w *mgrWalk) branch(b *ast.BlockStmt, depth int, defers *[]func()) {
+	if b == nil {
+		return
+	}
+	saved := w.cur
+	w.walkBlock(b.List, depth, defers)
+	if mgrTerminates(b) {
+		w.cur = saved // the path left the function (or the iteration): its lock state does not reach the code below
+	}
+}
+
+func (w *mgrWalk) walkStmt(st ast.Stmt, depth int, defers *[]func()) {
+	switch x := st.(type) {
+	case nil:
+	case *ast.ExprStmt:
+		w.walkExpr(x.X, depth)
+	case *ast.DeferStmt:
+		if _, op := w.mutexOp(x.Call); op == "Unlock" || op == "RUnlock" {
+			*defers = append(*defers, func() { w.unlock() })
+			return
+		}
+		if fl, ok := x.Call.Fun.(*ast.FuncLit); ok {
+			*defers = append(*defers, func() { w.walkFunc("", nil, fl.Body, depth+1, true) })
+			return
+		}
+		call := x.Call
+		*defers = append(*defers, func() { w.walkExpr(call, depth) })
+	case *ast.GoStmt:
+		w.problems = append(w.problems, "go statement inside a manager operation")
+	case *ast.AssignStmt:
+		for _, r := range x.Rhs {
+			w.walkExpr(r, depth)
+		}
+		for _, l := range x.Lhs {
+			if w.isEntries(l) {
+				w.access(true)
+			} else {
+				w.walkExpr(l, depth)
+			}
+		}
+	case *ast.IncDecStmt:
+		w.walkExpr(x.X, depth)
+	case *ast.DeclStmt:
+		if gd, ok := x.Decl.(*ast.GenDecl); ok {
+			for _, s := range gd.Specs {
+				if vs, ok := s.(*ast.ValueSpec); ok {
+					for _, v := range vs.Values {
+						w.walkExpr(v, depth)
+					}
+				}
+			}
+		}
+	case *ast.ReturnStmt:
+		for _, r := range x.Results {
+			w.walkExpr(r, depth)
+		}
+	case *ast.BlockStmt:
+		w.walkBlock(x.List, depth, defers)
+	case *ast.IfStmt:
+		w.walkStmt(x.Init, depth, defers)
+		w.walkExpr(x.Cond, depth)
+		w.branch(x.Body, depth, defers)
+		switch e := x.Else.(type) {
+		case *ast.BlockStmt:
+			w.branch(e, depth, defers)
+		case *ast.IfStmt:
+			w.walkStmt(e, depth, defers)
+		}
+	case *ast.ForStmt:
+		w.walkStmt(x.Init, depth, defers)
+		if x.Cond != nil {
+			w.walkExpr(x.Cond, depth)
+		}
+		w.walkStmt(x.Post, depth, defers)
+		w.branch(x.Body, depth, defers)
+	case *ast.RangeStmt:
+		w.walkExpr(x.X, depth)
+		w.branch(x.Body, depth, defers)
+	case *ast.SwitchStmt:
+		w.walkStmt(x.Init, depth, defers)
+		if x.Tag != nil {
+			w.walkExpr(x.Tag, depth)
+		}
+		for _, c := range x.Body.List {
+			if cc, ok := c.(*ast.CaseClause); ok {
+				for _, e := range cc.List {
+					w.walkExpr(e, depth)
+				}
+				w.branch(&ast.BlockStmt{List: cc.Body}, depth, defers)
+			}
+		}
+	case *ast.TypeSwitchStmt:
+		for _, c := range x.Body.List {
+			if cc, ok := c.(*ast.CaseClause); ok {
+				w.branch(&ast.BlockStmt{List: cc.Body}, depth, defers)
+			}
+		}
+	case *ast.LabeledStmt:
+		w.walkStmt(x.Stmt, depth, defers)
+	}
+}
+
+func (w *mgrWalk) walkExpr(e ast.Expr, depth int) {
+	switch x := e.(type) {
+	case nil:
+	case *ast.CallExpr:
+		if m, op := w.mutexOp(x); op != "" {
+			switch op {
+			case "Lock":
+				w.lock(m, true)
+			case "RLock":
+				w.lock(m, false)
+			case "TryLock":
+				w.problems = append(w.problems, "TryLock on the manager mutex")
+			default:
+				w.unlock()
+			}
+			return
+		}
+		for _, a := range x.Args {
+			w.walkExpr(a, depth)
+		}
+		switch f := x.Fun.(type) {
+		case *ast.FuncLit:
+			w.walkFunc("", nil, f.Body, depth+1, true)
+		case *ast.Ident:
+			if fd := w.p.funcs[f.Name]; fd != nil && fd.Body != nil && depth < 4 {
+				// a package-level helper: manager arguments become its manager variables
+				vars := map[string]bool{}
+				i := 0
+				for _, fl := range fd.Type.Params.List {
+					for _, n := range fl.Names {
+						if i < len(x.Args) && w.isMgr(x.Args[i]) {
+							vars[n.Name] = true
+						}
+						i++
+					}
+				}
+				w.mgrVars = append(w.mgrVars, vars)
+				var defers []func()
+				w.walkBlock(fd.Body.List, depth+1, &defers)
+				for j := len(defers) - 1; j >= 0; j-- {
+					defers[j]()
+				}
+				w.mgrVars = w.mgrVars[:len(w.mgrVars)-1]
+			}
+		case *ast.SelectorExpr:
+			if w.isMgr(f.X) {
+				if w.stopAt != "" && f.Sel.Name == w.stopAt {
+					w.targets++
+					return
+				}
+				if fd := w.p.funcs[w.typ+"."+f.Sel.Name]; fd != nil && fd.Body != nil && depth < 4 {
+					w.walkFunc(recvVarName(fd), nil, fd.Body, depth+1, false)
+				}
+				return
+			}
+			w.walkExpr(f.X, depth)
+		default:
+			w.walkExpr(x.Fun, depth)
+		}
+	case *ast.FuncLit:
+		// a callback handed to a library function (linq.WhereT, slices.DeleteFunc, sort.Slice): runs where it is passed
+		w.walkFunc("", nil, x.Body, depth+1, true)
+	case *ast.SelectorExpr:
+		if w.isEntries(x) {
+			w.access(false)
+			return
+		}
+		w.walkExpr(x.X, depth)
+	case *ast.StarExpr:
+		w.walkExpr(x.X, depth)
+	case *ast.UnaryExpr:
+		w.walkExpr(x.X, depth)
+	case *ast.BinaryExpr:
+		w.walkExpr(x.X, depth)
+		w.walkExpr(x.Y, depth)
+	case *ast.ParenExpr:
+		w.walkExpr(x.X, depth)
+	case *ast.IndexExpr:
+		w.walkExpr(x.X, depth)
+		w.walkExpr(x.Index, depth)
+	case *ast.SliceExpr:
+		w.walkExpr(x.X, depth)
+		w.walkExpr(x.Low, depth)
+		w.walkExpr(x.High, depth)
+	case *ast.CompositeLit:
+		for _, el := range x.Elts {
+			w.walkExpr(el, depth)
+		}
+	case *ast.KeyValueExpr:
+		w.walkExpr(x.Value, depth)
+	case *ast.TypeAssertExpr:
+		w.walkExpr(x.X, depth)
+	}
+}
+
+func (p *mgrPkg) trace(typ, method, entryType, stopAt string) (*mgrWalk, string) {
+	fd := p.funcs[typ+"."+method]
 	if fd == nil || fd.Body == nil {
-		note("method %s.%s not found", recv, name)
+		return nil, fmt.Sprintf("method %s.%s not found in the package", typ, method)
+	}
+	mu, entries := p.fields(typ, entryType)
+	if len(mu) == 0 || entries == "" {
+		return nil, fmt.Sprintf("%s: mutex field (sync.Mutex / sync.RWMutex) or entries field ([]*api.%s) not found", typ, entryType)
+	}
+	w := &mgrWalk{p: p, typ: typ, mutexes: mu, entries: entries, stopAt: stopAt}
+	w.walkFunc(recvVarName(fd), fd.Type.Params, fd.Body, 0, false)
+	if w.cur != nil {
+		w.problems = append(w.problems, "a lock is still held at the end of the operation")
+	}
+	return w, ""
+}
+
+// mgrOneRegion: every access to the entries lies inside a region of the manager's mutex; no lock is taken while one is
+// held; the entries are written in exactly ONE region, which is exclusive and also reads (scans) them — check and
+// insert, filter and write-back are one critical section. strict: no OTHER region reads the entries (a check made in a
+// region of its own before the writing region is the shape of the check/insert race).
+func mgrOneRegion(p *mgrPkg, typ, method, entryType string, strict bool, note func(string, ...any)) bool {
+	w, why := p.trace(typ, method, entryType, "")
+	if w == nil {
+		note("%s", why)
 		return false
 	}
 	ok := true
 	fail := func(format string, a ...any) {
 		ok = false
-		note("%s.%s: "+format, append([]any{recv, name}, a...)...)
+		note("%s.%s: "+format, append([]any{typ, method}, a...)...)
 	}
-	lockIdx := -1
-	for i, st := range fd.Body.List {
-		if n, k := stmtCall(st); k == "call" && n == "c.mux.Lock" {
-			lockIdx = i
-			break
+	for _, pr := range w.problems {
+		fail("%s", pr)
+	}
+	if w.outside > 0 {
+		fail("%d access(es) to the entries with no lock held", w.outside)
+	}
+	if w.nested > 0 {
+		fail("the mutex is locked while it is held (%d times)", w.nested)
+	}
+	if w.stray > 0 {
+		fail("%d unlock(s) with no lock held", w.stray)
+	}
+	writers, readersElsewhere := 0, 0
+	for _, r := range w.regions {
+		if r.writes > 0 {
+			writers++
+			if !r.exclusive {
+				fail("the entries are written under a read lock")
+			}
+			if r.reads == 0 {
+				fail("the region that writes the entries does not scan them")
+			}
+		} else if r.reads > 0 {
+			readersElsewhere++
 		}
 	}
-	if lockIdx < 0 || lockIdx+1 >= len(fd.Body.List) {
-		fail("no top-level c.mux.Lock() statement")
-		return false
+	if writers != 1 {
+		fail("the entries are written in %d regions, expected exactly one", writers)
 	}
-	if n, k := stmtCall(fd.Body.List[lockIdx+1]); !(k == "defer" && n == "c.mux.Unlock") {
-		fail("c.mux.Lock() is not immediately followed by defer c.mux.Unlock()")
-	}
-	var ops []string
-	for _, c := range allCalls(fd) {
-		if strings.Contains(c, ":c.mux.") {
-			ops = append(ops, c)
-		}
-	}
-	if strings.Join(ops, " ") != "call:c.mux.Lock defer:c.mux.Unlock" {
-		fail("operations on c.mux are %v, expected exactly one Lock and one deferred Unlock (no RLock, no unlock in between)", ops)
-	}
-	lockPos := fd.Body.List[lockIdx].Pos()
-	locking := mgrLockingMethods(f, recv)
-	scans, assigns := 0, 0
-	ast.Inspect(fd.Body, func(n ast.Node) bool {
-		switch x := n.(type) {
-		case *ast.SelectorExpr:
-			if exprString(x) == "c."+entries && x.Pos() < lockPos {
-				fail("c.%s is accessed before the region of c.mux begins", entries)
-			}
-		case *ast.RangeStmt:
-			if exprString(x.X) == "c."+entries && x.Pos() > lockPos {
-				scans++
-			}
-		case *ast.AssignStmt:
-			for _, l := range x.Lhs {
-				if exprString(l) == "c."+entries && x.Pos() > lockPos {
-					assigns++
-				}
-			}
-		case *ast.CallExpr:
-			fn := exprString(x.Fun)
-			if strings.HasPrefix(fn, "c.") && !strings.HasPrefix(fn, "c.mux.") && locking[strings.TrimPrefix(fn, "c.")] {
-				if x.Pos() > lockPos {
-					fail("calls %s, which locks c.mux itself, inside the region", fn)
-				} else if strict {
-					fail("calls %s before the region: a check made there is a critical section of its own", fn)
-				}
-			}
-		}
-		return true
-	})
-	if scans == 0 {
-		fail("the region does not scan c.%s", entries)
-	}
-	if assigns != 1 {
-		fail("the region assigns c.%s %d times, expected once", entries, assigns)
+	if strict && readersElsewhere > 0 {
+		fail("the entries are also read in %d other region(s): a check made there is a critical section of its own", readersElsewhere)
 	}
 	return ok
 }
 
-// mgrDelegates: fd touches neither c.mux nor c.<entries> and calls c.<callee> (per entity)
-func mgrDelegates(f *ast.File, recv, name, entries, callee string, note func(string, ...any)) bool {
-	fd := findFunc(f, recv, name)
-	if fd == nil || fd.Body == nil {
-		note("method %s.%s not found", recv, name)
+// mgrDelegates: the operation touches neither the mutex nor the entries itself and calls the per-entity pass
+func mgrDelegates(p *mgrPkg, typ, method, entryType, callee string, note func(string, ...any)) bool {
+	w, why := p.trace(typ, method, entryType, callee)
+	if w == nil {
+		note("%s", why)
 		return false
 	}
-	ok, calls := true, 0
-	ast.Inspect(fd.Body, func(n ast.Node) bool {
-		switch x := n.(type) {
-		case *ast.SelectorExpr:
-			if s := exprString(x); s == "c."+entries || s == "c.mux" {
-				ok = false
-				note("%s.%s: accesses %s itself", recv, name, s)
-			}
-		case *ast.CallExpr:
-			if exprString(x.Fun) == "c."+callee {
-				calls++
-			}
-		}
-		return true
-	})
-	if calls != 1 {
+	ok := true
+	if len(w.regions) > 0 || w.outside > 0 || w.stray > 0 {
 		ok = false
-		note("%s.%s: calls c.%s %d times, expected once (inside the loop over the entities)", recv, name, callee, calls)
+		note("%s.%s: operates the mutex or the entries itself", typ, method)
+	}
+	if w.targets < 1 {
+		ok = false
+		note("%s.%s: does not call %s", typ, method, callee)
 	}
 	return ok
 }
 
 func genManagers(outDir string) (string, error) {
-	fset := token.NewFileSet()
 	var notes []string
 	note := func(format string, a ...any) { notes = append(notes, fmt.Sprintf(format, a...)) }
-	parse := func(file string) (*ast.File, error) {
-		return parser.ParseFile(fset, filepath.Join(RepoDir(), "spine", file), nil, 0)
-	}
-	fb, err := parse("binding_manager.go")
+	p, err := mgrLoad(filepath.Join(RepoDir(), "spine"))
 	if err != nil {
 		return "", err
 	}
-	fs, err := parse("subscription_manager.go")
-	if err != nil {
-		return "", err
-	}
+	const B, S = "BindingManager", "SubscriptionManager"
+	const BE, SE = "BindingEntry", "SubscriptionEntry"
 	facts := []struct {
 		name, doc string
 		val       bool
 	}{
-		{"addBindingOneRegion", "AddBinding: the scan of bindingEntries for the server feature and the append lie in ONE exclusive region of c.mux (Lock … defer Unlock, no other operation on c.mux, no locking helper called)",
-			mgrOneRegion(fb, "BindingManager", "AddBinding", "bindingEntries", true, note)},
-		{"addSubscriptionOneRegion", "AddSubscription: the duplicate check and the append lie in one exclusive region of c.mux",
-			mgrOneRegion(fs, "SubscriptionManager", "AddSubscription", "subscriptionEntries", true, note)},
-		{"removeBindingOneRegion", "RemoveBinding: filter and write-back lie in one exclusive region of c.mux",
-			mgrOneRegion(fb, "BindingManager", "RemoveBinding", "bindingEntries", false, note)},
-		{"removeSubscriptionOneRegion", "RemoveSubscription: filter and write-back lie in one exclusive region of c.mux",
-			mgrOneRegion(fs, "SubscriptionManager", "RemoveSubscription", "subscriptionEntries", false, note)},
-		{"removeBindingsForEntityOneRegion", "RemoveBindingsForEntity (one pass of a teardown): filter, events and write-back lie in one exclusive region of c.mux",
-			mgrOneRegion(fb, "BindingManager", "RemoveBindingsForEntity", "bindingEntries", false, note)},
-		{"removeSubscriptionsForEntityOneRegion", "RemoveSubscriptionsForEntity (one pass of a teardown): filter, events and write-back lie in one exclusive region of c.mux",
-			mgrOneRegion(fs, "SubscriptionManager", "RemoveSubscriptionsForEntity", "subscriptionEntries", false, note)},
-		{"forDeviceDelegates", "RemoveBindingsForDevice / RemoveSubscriptionsForDevice only call the per-entity pass for every entity of the device",
-			mgrDelegates(fb, "BindingManager", "RemoveBindingsForDevice", "bindingEntries", "RemoveBindingsForEntity", note) &&
-				mgrDelegates(fs, "SubscriptionManager", "RemoveSubscriptionsForDevice", "subscriptionEntries", "RemoveSubscriptionsForEntity", note)},
+		{"addBindingOneRegion", "AddBinding: the scan of the binding entries for the server feature and the append lie in ONE exclusive region of the manager mutex; the entries are touched in no other region and nowhere without the lock (helpers inlined)",
+			mgrOneRegion(p, B, "AddBinding", BE, true, note)},
+		{"addSubscriptionOneRegion", "AddSubscription: the duplicate check and the append lie in one exclusive region of the manager mutex",
+			mgrOneRegion(p, S, "AddSubscription", SE, true, note)},
+		{"removeBindingOneRegion", "RemoveBinding: filter and write-back lie in one exclusive region of the manager mutex",
+			mgrOneRegion(p, B, "RemoveBinding", BE, false, note)},
+		{"removeSubscriptionOneRegion", "RemoveSubscription: filter and write-back lie in one exclusive region of the manager mutex",
+			mgrOneRegion(p, S, "RemoveSubscription", SE, false, note)},
+		{"removeBindingsForEntityOneRegion", "RemoveBindingsForEntity (one pass of a teardown): filter, events and write-back lie in one exclusive region of the manager mutex",
+			mgrOneRegion(p, B, "RemoveBindingsForEntity", BE, false, note)},
+		{"removeSubscriptionsForEntityOneRegion", "RemoveSubscriptionsForEntity (one pass of a teardown): filter, events and write-back lie in one exclusive region of the manager mutex",
+			mgrOneRegion(p, S, "RemoveSubscriptionsForEntity", SE, false, note)},
+		{"forDeviceDelegates", "RemoveBindingsForDevice / RemoveSubscriptionsForDevice only call the per-entity pass for the entities of the device",
+			mgrDelegates(p, B, "RemoveBindingsForDevice", BE, "RemoveBindingsForEntity", note) &&
+				mgrDelegates(p, S, "RemoveSubscriptionsForDevice", SE, "RemoveSubscriptionsForEntity", note)},
 	}
 	var b strings.Builder
-	b.WriteString("/-! GENERATED by go/cmd/translate (generator `managers`) from spine/binding_manager.go and spine/subscription_manager.go — do not edit. -/\n")
+	b.WriteString("/-! GENERATED by go/cmd/translate (generator `managers`) from the SubscriptionManager and BindingManager of package spine — do not edit. -/\n")
 	b.WriteString("namespace Spine.Generated.Managers\n\n")
 	var sum []string
 	for _, f := range facts {
 		fmt.Fprintf(&b, "/-- %s -/\ndef %s : Bool := %v\n\n", f.doc, f.name, f.val)
 		sum = append(sum, fmt.Sprintf("%s=%v", f.name, f.val))
 	}
+	sort.Strings(notes)
 	for _, n := range notes {
 		fmt.Fprintf(&b, "-- note: %s\n", n)
 	}
